@@ -26,6 +26,8 @@ def run(tier, replay=None):
     bins = vlib.cargo_build(["replay_config"] + cc.drive_bins())
     inv = ["TypeOK", "P_C05"]
 
+    if replay and replay.endswith(".json"):
+        cc.explain_replay(bins, replay)
     beh = os.path.join(wd, "behaviours.ndjson")
     if replay and replay.endswith(".ndjson"):
         beh = replay
